@@ -153,6 +153,9 @@ pub enum Release {
     /// the guard is stored in a user value whose destructor passes it to `unlock` (runs on
     /// return and, if the section panics, during the unwind)
     UnlockInDrop,
+    /// the guard is moved to another thread, which drops it (possible only if the guard, key
+    /// and all, is Send; otherwise it is dropped here)
+    SendAway,
 }
 
 #[derive(Clone, Copy, PartialEq, Eq, Debug, Serialize, Deserialize)]
@@ -202,6 +205,11 @@ pub enum BodyOp {
     /// inside a hold: take a key that another thread has sent (if keys can be sent at all) and
     /// lock the i-th leaf of the target, which this thread already holds, with it
     UseForeignKey(usize),
+    /// lend `&mut` of the i-th member guard to whichever thread wants it (possible only if
+    /// the guard type is Send) and wait a little for it to be used
+    LendGuard(usize),
+    /// swap the j-th member guard with a member guard of the same type lent by another thread
+    SwapLent(usize),
 }
 
 #[derive(Clone, PartialEq, Eq, Debug, Serialize, Deserialize)]
@@ -245,6 +253,8 @@ pub enum Step {
     InUnwind(Box<Step>),
     /// wait until thread .0 is blocked in a raw acquisition of lock .1
     WaitBlocked(usize, Lid),
+    /// drop a guard that another thread has sent away (if any arrived)
+    DropForeignGuard,
 }
 
 #[derive(Clone, PartialEq, Eq, Debug, Serialize, Deserialize)]
